@@ -61,6 +61,8 @@ def expDumpTrace : List String := [
   "log_message (NULL, \"\\t(catch) at %s, in program /%s (object %s)\\n\",",
   "get_line_number (pc, current_prog), current_prog->name, current_object->name)",
   "num_arg = -1",
+  "if (num_arg != -1 && fp + num_arg + num_local - 1 > sp)",
+  "num_arg = -1",
   "if ((how & DUMP_WITH_ARGS) && (num_arg != -1))",
   "if ((how & DUMP_WITH_LOCALVARS) && num_local > 0 && num_arg != -1)"]
 
